@@ -48,6 +48,10 @@ def cexpr(e):
         return "(EBinOp %s %s %s)" % (cbool(isinstance(e.op, ast.BitOr)), cexpr(e.left), cexpr(e.right))
     if isinstance(e, ast.UnaryOp):
         return "(EUnaryOp %s)" % cexpr(e.operand)
+    if isinstance(e, ast.BoolOp):
+        return "(EBoolOp %s)" % clist([cexpr(x) for x in e.values])
+    if isinstance(e, ast.Set):
+        return "(ESet %s)" % clist([cexpr(x) for x in e.elts])
     if isinstance(e, ast.Compare):
         return "(ECompare %s %s)" % (cexpr(e.left), clist([cexpr(c) for c in e.comparators]))
     if isinstance(e, ast.Yield):
